@@ -286,6 +286,13 @@ func drawAxis(r *simrt.Rng, name, kind string, idx int) model.AxisDesc {
 		if r.Chance(0.3) {
 			a.HasOff, a.Off = true, r.Range(0, 15)
 		}
+	case "action", "action1":
+		a.Type = "action"
+		acts := []string{"octave_up", "octave_down", "semitone_up", "semitone_down", "channel_up", "channel_down", "mapping_up", "mapping_down", "panic", "cc_learning", "multinote"}
+		a.Action = sp(acts[r.Intn(len(acts))])
+		if kind == "action" {
+			a.ActionNeg = sp(acts[r.Intn(len(acts))])
+		}
 	case "key", "key1":
 		a.Type = "key"
 		a.Note = ip(r.Range(40, 80))
